@@ -1190,16 +1190,29 @@ fn gmm<F: Fl>(ctx: &Ctx, fam: &'static str) {
         let ds = DatasetBase::from(x);
         let bad_ds = degenerate(&ds, c.idx);
         let seed = c.rng.gen::<u64>();
+        let c_idx = c.idx;
         type P<F> = GmmParams<F, TripRng>;
         let make_t = || -> (P<F>, Box<dyn Fn() -> u64>) {
             let r = TripRng::new(seed);
             let r2 = r.clone();
-            let p = GaussianMixtureModel::params_with_rng(k, r)
-                .tolerance(F::of(tol))
-                .reg_covariance(F::of(reg))
-                .n_runs(runs)
-                .max_n_iterations(iters)
-                .init_method(init);
+            // two construction orders: generator first, or every setter first and the generator
+            // swapped in last (`with_rng` rebuilds the parameter set and must carry every value over)
+            let p = if c_idx % 2 == 0 {
+                GaussianMixtureModel::params_with_rng(k, r)
+                    .tolerance(F::of(tol))
+                    .reg_covariance(F::of(reg))
+                    .n_runs(runs)
+                    .max_n_iterations(iters)
+                    .init_method(init)
+            } else {
+                GaussianMixtureModel::params(k)
+                    .tolerance(F::of(tol))
+                    .reg_covariance(F::of(reg))
+                    .n_runs(runs)
+                    .max_n_iterations(iters)
+                    .init_method(init)
+                    .with_rng(r)
+            };
             (p, Box::new(move || r2.hits()))
         };
         let make = || make_t().0;
@@ -2572,16 +2585,29 @@ macro_rules! random_projection_impl {
                 let ds = DatasetBase::from(x.clone());
                 let bad_ds = degenerate(&ds, c.idx);
                 let seed = c.rng.gen::<u64>();
+                let c_idx = c.idx;
                 type P = $ParamsAlias<TripRng>;
                 let make_t = || -> (P, Box<dyn Fn() -> u64>) {
                     let r = TripRng::new(seed);
                     let r2 = r.clone();
-                    let p = $Alias::<F>::params_with_rng(r);
-                    let p = match (form, order) {
-                        (0, 0) => p.eps(eps).target_dim(dim),
-                        (0, _) => p.target_dim(dim),
-                        (_, 0) => p.target_dim(dim).eps(eps),
-                        (_, _) => p.eps(eps),
+                    let p = if c_idx % 2 == 0 {
+                        let p = $Alias::<F>::params_with_rng(r);
+                        match (form, order) {
+                            (0, 0) => p.eps(eps).target_dim(dim),
+                            (0, _) => p.target_dim(dim),
+                            (_, 0) => p.target_dim(dim).eps(eps),
+                            (_, _) => p.eps(eps),
+                        }
+                    } else {
+                        // setters first, generator swapped in last
+                        let p = $Alias::<F>::params();
+                        match (form, order) {
+                            (0, 0) => p.eps(eps).target_dim(dim),
+                            (0, _) => p.target_dim(dim),
+                            (_, 0) => p.target_dim(dim).eps(eps),
+                            (_, _) => p.eps(eps),
+                        }
+                        .with_rng(r)
                     };
                     (p, Box::new(move || r2.hits()))
                 };
